@@ -152,7 +152,7 @@ def run_targets(ctx, replay_obj, binary, known, thorough, skip_mc):
                     ("mc-l3", cfg(rcpts=("a1", "nl", "idn"), maxlist=3, maxtxns=4))]
         states = trans = depth = 0
         for name, text in runs:
-            r = ctx.tlc_expect_ok("RcptStatus", None, name=name, workers=8, timeout=3000, cfg_text=text)
+            r = ctx.tlc_expect_ok("RcptStatus", None, name=name, workers=8, timeout=3000, cfg_text=text, heap="4g")
             states += r["distinct"]
             trans += r["generated"]
             depth = max(depth, r["depth"])
@@ -162,7 +162,7 @@ def run_targets(ctx, replay_obj, binary, known, thorough, skip_mc):
         ctx.cov["transitions"] = ctx.cov.get("transitions", 0) + trans
         ctx.cov["states_targets"] = states
         ctx.cov["model_depth"] = depth
-        ra = ctx.tlc("RcptStatus", None, name="asis", workers=4, timeout=600,
+        ra = ctx.tlc("RcptStatus", None, name="asis", workers=4, timeout=600, heap="2g",
                      cfg_text=cfg(rcpts=("a1", "idn"), maxlist=2, maxtxns=2, devs=ALL_DEVS,
                                   tail="VIEW View\nINVARIANTS NoViolation\n"))
         if ra["invariant"] != "NoViolation":
@@ -185,7 +185,7 @@ def run_targets(ctx, replay_obj, binary, known, thorough, skip_mc):
                       ("gen-lists", cfg(rcpts=ALL_RCPTS, maxlist=2, maxtxns=1, data=("ok", "temp"),
                                         gen=True, tail=GEN_TAIL))]
         for name, text in focus:
-            g = ctx.tlc("RcptStatus", None, name=name, workers=4, timeout=1800, cfg_text=text)
+            g = ctx.tlc("RcptStatus", None, name=name, workers=4, timeout=1800, cfg_text=text, heap="3g")
             if not g["ok"]:
                 raise vlib.Infra("behaviour generation %s failed: %s %s" % (name, g["invariant"], g["error"]))
             got = behaviours_from(g)
@@ -194,7 +194,7 @@ def run_targets(ctx, replay_obj, binary, known, thorough, skip_mc):
                 got = vlib.sample(ctx.rng, got, 400)
             behs += got
         n = 5000 if thorough else 500
-        g = ctx.tlc("RcptStatus", None, name="sim", workers=1, timeout=1800, simulate=n, depth=80,
+        g = ctx.tlc("RcptStatus", None, name="sim", workers=1, timeout=1800, simulate=n, depth=80, heap="3g",
                     cfg_text=cfg(maxlist=3, maxtxns=4, gen=True, tail=GEN_TAIL))
         if not g["ok"]:
             raise vlib.Infra("behaviour simulation failed: %s %s" % (g["invariant"], g["error"]))
@@ -248,14 +248,14 @@ def run_pipeline(ctx, replay_obj, binary, known, thorough, skip_mc):
     """Pipeline half: PipeStatus.tla, real msgpipeline + replace_rcpt + scripted partial target."""
     open_devs = sorted({d for f in known for d in devs_of(f) if d in PIPE_DEVS})
     if not replay_obj and not skip_mc:
-        r = ctx.tlc_expect_ok("PipeStatus", None, name="pipe-mc", workers=6, timeout=1800,
+        r = ctx.tlc_expect_ok("PipeStatus", None, name="pipe-mc", workers=6, timeout=1800, heap="3g",
                               cfg_text=pcfg(maxlist=3 if thorough else 2))
         ctx.log("TLC exhaustive pipe-mc: %d distinct states, %d transitions, depth %d, %.1fs" % (
             r["distinct"], r["generated"], r["depth"], r["wall"]))
         ctx.cov["states"] = ctx.cov.get("states", 0) + r["distinct"]
         ctx.cov["transitions"] = ctx.cov.get("transitions", 0) + r["generated"]
         ctx.cov["states_pipeline"] = r["distinct"]
-        ra = ctx.tlc("PipeStatus", None, name="pipe-asis", workers=2, timeout=600,
+        ra = ctx.tlc("PipeStatus", None, name="pipe-asis", workers=2, timeout=600, heap="2g",
                      cfg_text=pcfg(st=("ok", "temp"), devs=PIPE_DEVS, tail="VIEW View\nINVARIANTS NoViolation\n"))
         if ra["invariant"] != "NoViolation":
             raise vlib.Infra("as-is pipeline model (RewriteCollision) no longer violates NoViolation (%s %s)" % (
@@ -265,7 +265,7 @@ def run_pipeline(ctx, replay_obj, binary, known, thorough, skip_mc):
         behs[0]["id"] = 1
     else:
         # complete enumeration of rewrite rules x recipient lists x target results (2 result classes)
-        g = ctx.tlc("PipeStatus", None, name="pipe-gen", workers=4, timeout=1800,
+        g = ctx.tlc("PipeStatus", None, name="pipe-gen", workers=4, timeout=1800, heap="3g",
                     cfg_text=pcfg(st=("ok", "temp"), gen=True, tail=GEN_TAIL))
         if not g["ok"]:
             raise vlib.Infra("pipeline behaviour generation failed: %s %s" % (g["invariant"], g["error"]))
